@@ -74,13 +74,15 @@ Definition tcomplete (s : tstate) (o : outcome) : tstate :=
   tmk None (tfin s) (Some o) (truns s) (fst (notify (tsubs s) (tsubs s)))
       (tlog s ++ map (fun id => (id, o)) (snd (notify (tsubs s) (tsubs s)))) (tinner s).
 
-(* what set_value / set_error on the suspended task returns to its caller: the exception of
-   generator.close(), re-raised after the finally block                                          *)
+(* what set_value / set_error on the suspended task returns to its caller.  Since /repo e494717
+   AsyncTask._computed drops an Exception raised by generator.close() (the task already has its
+   outcome; the error of its with/finally blocks has no consumer): the handler's Exception, and the
+   RuntimeError close() raises when the handler yields again, no longer reach the caller; a
+   BaseException is not caught and is re-raised after the finally block as before                *)
 Definition close_result (c : cleanup) : res :=
   match c with
-  | CleanOk => RUnit
-  | CleanRaise e | CleanRaiseBase e => RRaise e
-  | CleanYield => RRaise E_RUNTIME
+  | CleanOk | CleanRaise _ | CleanYield => RUnit
+  | CleanRaiseBase e => RRaise e
   end.
 
 Definition istep (c : cleanup) (s : tstate) (o : iop) : tstate * res :=
